@@ -254,6 +254,7 @@ func runC06(c *Ctx) {
 
 	// ---- R-C06-REFUSALS
 	refusalsRule(c, "R-C06-REFUSALS")
+	defaultUpdateRule(c, "R-C06-REFUSALS")
 
 	// ---- R-C06-ADDSTORE
 	c.Group("R-C06-ADDSTORE", "Cache.processItems", func() {
@@ -454,6 +455,57 @@ func waitRule(c *Ctx, ruleID string) {
 			L.Ok(ruleID, "Cache.Wait#send", "fresh unbuffered channel in Item.wait, blocking send on setBuf on every path", send.Pos())
 			L.Ok(ruleID, "Cache.Wait#recv", "returns only after <-wait", send.Pos())
 		}
+	})
+}
+
+// defaultUpdateRule: the update predicate a new shard starts with accepts every overwrite, and
+// SetShouldUpdateFn keeps it when the user supplies none.
+func defaultUpdateRule(c *Ctx, ruleID string) {
+	L, P := c.L, c.P
+	c.Group(ruleID, "newLockedMap#shouldUpdate", func() {
+		fn := P.Fn("ristretto", "", "newLockedMap")
+		L.Analysed(fname(fn))
+		var lit *ssa.Alloc
+		eachInstr(fn, func(in ssa.Instruction) {
+			if a, ok := in.(*ssa.Alloc); ok && recvName(a.Type()) == "lockedMap" {
+				lit = a
+			}
+		})
+		if lit == nil {
+			L.Undecided(ruleID, "newLockedMap#shouldUpdate", "no lockedMap literal", fn.Pos())
+			return
+		}
+		sts := litFields(lit)["shouldUpdate"]
+		if len(sts) == 0 {
+			L.OkTrivial(ruleID, "newLockedMap#shouldUpdate", "no default predicate (nil means always update)", fn.Pos())
+			return
+		}
+		var f *ssa.Function
+		val := sts[0].Val
+		for {
+			if ct, ok := val.(*ssa.ChangeType); ok {
+				val = ct.X
+				continue
+			}
+			break
+		}
+		switch v := val.(type) {
+		case *ssa.MakeClosure:
+			f, _ = v.Fn.(*ssa.Function)
+		case *ssa.Function:
+			f = v
+		}
+		if f == nil {
+			L.Undecided(ruleID, "newLockedMap#shouldUpdate", "default predicate is not a function literal", sts[0].Pos())
+			return
+		}
+		ok := true
+		for _, r := range returnsOf(f) {
+			if !isConst(returnValues(r)[0], "true") {
+				ok = false
+			}
+		}
+		L.Check(ok, ruleID, "newLockedMap#shouldUpdate", "the default update predicate returns true", "the default update predicate can refuse: without Config.ShouldUpdate overwrites of resident keys would be dropped", f.Pos())
 	})
 }
 
